@@ -3,6 +3,9 @@
 #include "../core/driver.h"
 #include "CppUTest/SimpleStringInternalCache.h"
 #include "CppUTest/TestMemoryAllocator.h"
+#include "CppUTest/TestRegistry.h"
+#include "CppUTest/TestOutput.h"
+#include "CppUTest/TestResult.h"
 #undef new
 #undef malloc
 #undef free
@@ -12,8 +15,13 @@ namespace cs {
 using namespace vf;
 
 enum Kind { C_NONE = 0, C_ALLOC /* a slot, c size */, C_DEALLOC /* a slot, b size variant */, C_FOREIGN /* a kind (0 never handed out, 1 already released), c size */,
-            C_CLEAR_CACHE, C_CLEAR_ALL, C_HASFREE /* c size */, C_RECREATE /* destroy the cache and build a new one */, C_COUNT };
-static const char* const kNames[C_COUNT] = { "none", "alloc", "dealloc", "foreign_release", "clear_cache", "clear_all", "has_free", "recreate" };
+            C_CLEAR_CACHE, C_CLEAR_ALL, C_HASFREE /* c size */, C_RECREATE /* destroy the cache and build a new one */,
+            // profile 'global': SimpleString objects over a GlobalSimpleStringCache (the allocator adaptor and its installation)
+            G_INSTALL, G_UNINSTALL /* a: 1 = strings made while caching are abandoned, not destroyed */, G_NEW /* a slot, c length, b content seed */,
+            G_APPEND /* a slot, c length, b seed */, G_ASSIGN /* a dst, b src */, G_DROP /* a slot */, G_SUB /* a slot, b pos, c length */, G_FORMAT /* a slot, b src, c number */,
+            C_COUNT };
+static const char* const kNames[C_COUNT] = { "none", "alloc", "dealloc", "foreign_release", "clear_cache", "clear_all", "has_free", "recreate",
+                                             "g_install", "g_uninstall", "g_new", "g_append", "g_assign", "g_drop", "g_sub", "g_format" };
 static const char* kindName(int k) { return k >= 0 && k < C_COUNT ? kNames[k] : "none"; }
 static int kindFromName(const char* s) { for (int i = 0; i < C_COUNT; i++) if (!strcmp(s, kNames[i])) return i; return C_NONE; }
 
@@ -56,7 +64,7 @@ struct Engine : public vf::Engine {
     const char* variant() const { return "asan"; }
     KindNameFn kindName() const { return cs::kindName; }
     KindFromNameFn kindFromName() const { return cs::kindFromName; }
-    void initProcess() { installBasicSeams(); }
+    void initProcess();
 
     static size_t pickSize(Rng& r) {
         unsigned w = (unsigned)r.below(10);
@@ -65,8 +73,34 @@ struct Engine : public vf::Engine {
         if (w < 9) return (size_t)r.range(0, 260);
         return (size_t)r.range(257, 1024);
     }
-    void generate(uint64_t seed, const Str&, Desc& d) {
+    void generateGlobal(uint64_t seed, Desc& d) {
+        Rng w(mix64(seed, 22));
+        Group H; H.tag = "hist";
+        int nOps = (int)w.small(1, 120); int nSlots = (int)w.range(1, w.chance(1, 4) ? 24 : 6);
+        d.p["dirty"] = w.chance(3, 4);
+        d.p["via_adaptor"] = 0;
+        d.p["sink_output"] = w.chance(1, 2);   // the history runs inside a test whose output appends to a SimpleString made before the cache was installed
+        bool startInstalled = w.chance(2, 3);
+        if (startInstalled) { Op o; o.kind = G_INSTALL; H.ops.push_back(o); }
+        for (int i = 0; i < nOps; i++) {
+            Op o; unsigned x = (unsigned)w.below(100);
+            size_t sz = pickSize(w); int64_t len = sz ? (int64_t)sz - 1 : 0;
+            if (x < 30) { o.kind = G_NEW; o.a = (int64_t)w.below((uint64_t)nSlots); o.c = len; o.b = (int64_t)w.below(1000); }
+            else if (x < 42) { o.kind = G_APPEND; o.a = (int64_t)w.below((uint64_t)nSlots); o.c = w.chance(1, 2) ? (int64_t)w.below(40) : len; o.b = (int64_t)w.below(1000); }
+            else if (x < 52) { o.kind = G_ASSIGN; o.a = (int64_t)w.below((uint64_t)nSlots); o.b = (int64_t)w.below((uint64_t)nSlots); }
+            else if (x < 78) { o.kind = G_DROP; o.a = (int64_t)w.below((uint64_t)nSlots); }
+            else if (x < 84) { o.kind = G_SUB; o.a = (int64_t)w.below((uint64_t)nSlots); o.b = (int64_t)w.below(300); o.c = (int64_t)w.below(300); }
+            else if (x < 90) { o.kind = G_FORMAT; o.a = (int64_t)w.below((uint64_t)nSlots); o.b = (int64_t)w.below((uint64_t)nSlots); o.c = (int64_t)w.below(100000); }
+            else if (x < 95) o.kind = G_INSTALL;
+            else { o.kind = G_UNINSTALL; o.a = w.chance(1, 3); }
+            H.ops.push_back(o);
+        }
+        d.groups.push_back(H);
+    }
+    void generate(uint64_t seed, const Str& profile, Desc& d) {
+        if (profile == "global") { generateGlobal(seed, d); return; }
         Rng w(mix64(seed, 21));
+        d.p["via_adaptor"] = w.chance(1, 3);
         Group H; H.tag = "hist";
         int nOps = (int)w.small(1, 160); int nSlots = (int)w.range(1, w.chance(1, 4) ? 40 : 8);
         bool oneClass = w.chance(1, 4); size_t fixedSize = pickSize(w);
@@ -85,12 +119,202 @@ struct Engine : public vf::Engine {
         d.groups.push_back(H);
     }
 
+    // ---------------------------------------------------------------- profile 'global'
+    struct GStr { SimpleString* s; Str model; bool cacheOrigin; };
+    static Str textOf(int64_t seed, int64_t len) { Str t; t.reserve((size_t)len); for (int64_t i = 0; i < len; i++) t += (char)('a' + (int)((i * 7 + seed + (i >> 4)) % 26)); return t; }
+    static size_t countWarnings() { size_t warn = 0, pos = 0; while ((pos = simIO().console.find("WARNING: Attempting to deallocate", pos)) != Str::npos) { warn++; pos += 10; } return warn; }
+    enum { SINK = N_SLOTS - 1 };
+    struct GCtx {
+        const Desc* d; RunResult* r; Hash h; RecAlloc rec; GStr slots[N_SLOTS]; GlobalSimpleStringCache* g; void* gmem;
+        size_t orphans, foreignThisLifetime, warningsBefore; Str lastForeignText; bool useSink;
+        GCtx() : d(0), r(0), g(0), gmem(0), orphans(0), foreignThisLifetime(0), warningsBefore(0), useSink(false) { for (int i = 0; i < N_SLOTS; i++) slots[i].s = 0; }
+        void releaseOld(GStr& S) { if (S.s && g && !S.cacheOrigin) { orphans++; foreignThisLifetime++; if (foreignThisLifetime == 1) lastForeignText = S.model; fired("static_string_released_while_caching"); } }
+    };
+    static GCtx*& gctx() { static GCtx* c = 0; return c; }
+    // test output that keeps what is printed in a SimpleString (as StringBufferTestOutput does): a print while the cache is installed
+    // releases the string's previous buffer through the cache - also from inside the cache's own warning
+    class SinkOutput : public TestOutput {
+    public:
+        int depth;
+        SinkOutput() : depth(0) {}
+        void printBuffer(const char* t) CPPUTEST_OVERRIDE {
+            GCtx* c = gctx(); simIO().console += t;
+            if (!c || !c->slots[SINK].s) return;
+            if (++depth > 50) { --depth; return; }          // a warning that re-enters itself without end is cut here and reported by the count
+            GStr& S = c->slots[SINK];
+            c->releaseOld(S);
+            *S.s += t; S.model += t; S.cacheOrigin = c->g != 0;
+            if (c->g) probe("print_into_string_while_caching");
+            --depth;
+        }
+        void flush() CPPUTEST_OVERRIDE {}
+    };
+    class BodyFunction : public ExecFunction { public: Engine* e; void exec() CPPUTEST_OVERRIDE { e->globalBody(*gctx()); } };
+
+    void executeGlobal(const Desc& d, RunResult& r) {
+        simIO().reset();
+        GCtx* c = new (::malloc(sizeof(GCtx))) GCtx(); gctx() = c;
+        c->d = &d; c->r = &r; c->rec.dirty = d.pi("dirty", 1) != 0; c->useSink = d.pi("sink_output", 0) != 0;
+        TestMemoryAllocator* before = SimpleString::getStringAllocator();
+        SimpleString::setStringAllocator(&c->rec);
+        c->gmem = ::malloc(sizeof(GlobalSimpleStringCache));
+        if (!d.groups.empty()) {
+            if (c->useSink) {
+                c->slots[SINK].s = new (::malloc(sizeof(SimpleString))) SimpleString(""); c->slots[SINK].model = ""; c->slots[SINK].cacheOrigin = false;
+                {
+                    SinkOutput out; TestResult res(out); TestRegistry reg; ExecFunctionTestShell shell; BodyFunction fn; fn.e = this; shell.testFunction_ = &fn;
+                    reg.addTest(&shell);
+                    reg.runAllTests(res);
+                    shell.testFunction_ = 0;
+                    if (res.getFailureCount() && r.viols.empty()) r.fail("C18", "test_failed", sg("what", "the test that ran the history failed"), simIO().console.substr(0, 300).c_str());
+                }
+            } else globalBody(*c);
+        }
+        for (int i = 0; i < N_SLOTS; i++) if (c->slots[i].s) { c->slots[i].s->~SimpleString(); ::free((void*)c->slots[i].s); c->slots[i].s = 0; }
+        if (r.viols.empty() && c->rec.liveCount() != c->orphans) r.fail("C18", "returned_once", sg("what", "string buffers outstanding after every string was destroyed"), sfmt("end: %zu outstanding, %zu refused by the cache", c->rec.liveCount(), c->orphans));
+        if (r.viols.empty() && (c->rec.doubleFrees || c->rec.foreignFrees)) r.fail("C18", "returned_once", sg("what", "memory returned twice at the end"), "");
+        SimpleString::setStringAllocator(before);
+        ::free(c->gmem);
+        c->rec.releaseAll();
+        for (size_t i = 0; i < r.viols.size(); i++) c->h.str(r.viols[i].cls().c_str());
+        c->h.u64(c->rec.allocCalls); c->h.u64(c->rec.freeCalls);
+        r.hash = c->h.h;
+        gctx() = 0; c->~GCtx(); ::free(c);
+    }
+
+    void globalBody(GCtx& C) {
+        const Desc& d = *C.d; RunResult& r = *C.r; Hash& h = C.h; RecAlloc& rec = C.rec; GStr* slots = C.slots; GlobalSimpleStringCache*& g = C.g; void* gmem = C.gmem;
+        size_t& orphans = C.orphans; size_t& foreignThisLifetime = C.foreignThisLifetime; size_t& warningsBefore = C.warningsBefore; Str& lastForeignText = C.lastForeignText;
+        const Group& H = d.groups[0];
+        #define RELEASE_OLD(S) C.releaseOld(S)
+        for (size_t oi = 0; oi < H.ops.size() && r.viols.empty(); oi++) {
+            const Op& o = H.ops[oi]; const char* on = cs::kindName(o.kind);
+            h.ev(on, (uint64_t)o.a, (uint64_t)o.b, (uint64_t)o.c);
+            GStr& S = slots[(size_t)o.a % N_SLOTS];
+            switch (o.kind) {
+            case G_INSTALL: {
+                if (g) break;
+                g = new (gmem) GlobalSimpleStringCache();
+                TestMemoryAllocator* a = SimpleString::getStringAllocator();
+                if (a != g->getAllocator() || a == &rec) r.fail("C18", "installation", sg("what", "the cache allocator is not the string allocator after installation"), sfmt("op %zu", oi));
+                else if (strcmp(a->alloc_name(), "ralloc") || strcmp(a->free_name(), "rfree") || a->actualAllocator() != &rec)
+                    r.fail("C18", "adaptor_identity", sg("what", "adaptor does not present the underlying allocator's names / actual allocator"), sfmt("op %zu", oi));
+                foreignThisLifetime = 0; warningsBefore = countWarnings();
+                probe("global_install");
+                break;
+            }
+            case G_UNINSTALL: {
+                if (!g) break;
+                size_t abandoned = 0;
+                for (int i = 0; i < N_SLOTS; i++) if (slots[i].s && slots[i].cacheOrigin) {
+                    if (o.a) { ::free((void*)slots[i].s); abandoned++; }      // the object is forgotten with its buffer still marked used in the cache
+                    else { slots[i].s->~SimpleString(); ::free((void*)slots[i].s); }
+                    slots[i].s = 0;
+                }
+                if (abandoned) fired("strings_abandoned_at_uninstall", abandoned);
+                g->~GlobalSimpleStringCache(); g = 0;
+                if (C.useSink && !slots[SINK].s) { slots[SINK].s = new (::malloc(sizeof(SimpleString))) SimpleString(""); slots[SINK].model = ""; slots[SINK].cacheOrigin = false; }
+                if (SimpleString::getStringAllocator() != &rec) r.fail("C18", "installation", sg("what", "the previous string allocator is not restored"), sfmt("op %zu", oi));
+                size_t outside = 0; for (int i = 0; i < N_SLOTS; i++) if (slots[i].s) outside++;
+                if (rec.liveCount() != outside + orphans)
+                    r.fail("C18", "clear_all", sg("what", rec.liveCount() > outside + orphans ? "memory kept after the global cache was destroyed" : "memory of strings outside the cache was released"),
+                           sfmt("op %zu: %zu allocations outstanding, %zu strings made outside the cache, %zu buffers the cache refused", oi, rec.liveCount(), outside, orphans));
+                size_t warn = countWarnings() - warningsBefore, want = foreignThisLifetime ? 1 : 0;
+                if (warn != want) r.fail("C18", "warning_once", sg("what", warn > want ? "warned more than once" : "no warning"), sfmt("op %zu: %zu warnings for %zu unknown releases", oi, warn, foreignThisLifetime));
+                else if (want && lastForeignText.size() <= 200 && simIO().console.find(lastForeignText.c_str()) == Str::npos)
+                    r.fail("C18", "warning_once", sg("what", "warning does not show the string"), sfmt("op %zu", oi));
+                probe("global_uninstall");
+                break;
+            }
+            case G_NEW: {
+                if (S.s) break;
+                Str t = textOf(o.b, o.c);
+                S.s = new (::malloc(sizeof(SimpleString))) SimpleString(t.c_str()); S.model = t; S.cacheOrigin = g != 0;
+                r.nontrivial = true;
+                break;
+            }
+            case G_APPEND: {
+                if (!S.s) break;
+                Str t = textOf(o.b, o.c);
+                RELEASE_OLD(S);
+                *S.s += t.c_str(); S.model += t; S.cacheOrigin = g != 0;
+                break;
+            }
+            case G_ASSIGN: {
+                GStr& F = slots[(size_t)o.b % N_SLOTS];
+                if (!S.s || !F.s || &S == &F) break;
+                RELEASE_OLD(S);
+                *S.s = *F.s; S.model = F.model; S.cacheOrigin = g != 0;
+                break;
+            }
+            case G_DROP: {
+                if (!S.s) break;
+                RELEASE_OLD(S);
+                S.s->~SimpleString(); ::free((void*)S.s); S.s = 0;
+                break;
+            }
+            case G_SUB: {
+                if (!S.s) break;
+                size_t pos = (size_t)o.b, n = (size_t)o.c;
+                Str m; if (pos < S.model.size()) m = S.model.substr(pos, n); 
+                RELEASE_OLD(S);
+                *S.s = S.s->subString(pos, n); S.model = m; S.cacheOrigin = g != 0;
+                break;
+            }
+            case G_FORMAT: {
+                GStr& F = slots[(size_t)o.b % N_SLOTS];
+                if (!S.s || !F.s || &S == &F) break;
+                RELEASE_OLD(S);
+                *S.s = StringFromFormat("%s-%d-%s", F.s->asCharString(), (int)o.c, F.s->asCharString());
+                char num[32]; snprintf(num, sizeof num, "-%d-", (int)o.c);
+                S.model = F.model + num + F.model; S.cacheOrigin = g != 0;
+                break;
+            }
+            default: break;
+            }
+            if (rec.doubleFrees) { r.fail("C18", "returned_once", sg("what", "memory returned to the allocator twice"), sfmt("op %zu (%s)", oi, on)); rec.doubleFrees = 0; }
+            if (rec.foreignFrees) { r.fail("C18", "returned_once", sg("what", "memory returned that the allocator never served"), sfmt("op %zu (%s)", oi, on)); rec.foreignFrees = 0; }
+            // every string still reads as the model says, lies inside memory the allocator served, and overlaps no other string
+            for (int i = 0; i < N_SLOTS && r.viols.empty(); i++) if (slots[i].s) {
+                const char* p = slots[i].s->asCharString(); size_t n = slots[i].model.size() + 1;
+                if (!rec.containing(p, n)) { r.fail("C18", "capacity", sg("what", "string buffer not inside memory obtained from the allocator"), sfmt("after op %zu (%s): slot %d, %zu bytes", oi, on, i, n)); break; }
+                if (memcmp(p, slots[i].model.c_str(), n) != 0) { r.fail("C18", "aliasing", sg("what", "content of a buffer in use changed"), sfmt("after op %zu (%s): slot %d", oi, on, i)); break; }
+                for (int k = i + 1; k < N_SLOTS; k++) if (slots[k].s) {
+                    const char* q = slots[k].s->asCharString(); size_t m = slots[k].model.size() + 1;
+                    if (p < q + m && q < p + n) { r.fail("C18", "aliasing", sg("what", "buffer overlaps a buffer still in use"), sfmt("after op %zu (%s): slots %d and %d", oi, on, i, k)); break; }
+                }
+            }
+            h.u64(rec.liveCount());
+        }
+        #undef RELEASE_OLD
+        // end: strings made while caching are destroyed, the global cache goes away, then everything else
+        if (g) {
+            for (int i = 0; i < N_SLOTS; i++) if (slots[i].s && slots[i].cacheOrigin) { slots[i].s->~SimpleString(); ::free((void*)slots[i].s); slots[i].s = 0; }
+            g->~GlobalSimpleStringCache(); g = 0;
+            if (C.useSink && !slots[SINK].s) { slots[SINK].s = new (::malloc(sizeof(SimpleString))) SimpleString(""); slots[SINK].model = ""; slots[SINK].cacheOrigin = false; }
+            size_t outside = 0; for (int i = 0; i < N_SLOTS; i++) if (slots[i].s) outside++;
+            if (r.viols.empty() && rec.liveCount() != outside + orphans) r.fail("C18", "clear_all", sg("what", "memory kept after the global cache was destroyed"), sfmt("end: %zu allocations outstanding, expected %zu", rec.liveCount(), outside + orphans));
+            size_t warn = countWarnings() - warningsBefore, want = foreignThisLifetime ? 1 : 0;
+            if (r.viols.empty() && warn != want) r.fail("C18", "warning_once", sg("what", warn > want ? "warned more than once" : "no warning"), sfmt("end: %zu warnings for %zu unknown releases", warn, foreignThisLifetime));
+            if (r.viols.empty() && SimpleString::getStringAllocator() != &rec) r.fail("C18", "installation", sg("what", "the previous string allocator is not restored"), "end");
+        }
+    }
+
     void execute(const Desc& d, RunResult& r) {
+        if (d.profile == "global") { executeGlobal(d, r); return; }
         Hash h;
         simIO().reset();
         RecAlloc rec; rec.dirty = d.pi("dirty", 1) != 0;
         SimpleStringInternalCache* cache = new (::malloc(sizeof(SimpleStringInternalCache))) SimpleStringInternalCache();
         cache->setAllocator(&rec);
+        // a third of the histories reach the cache through the allocator adaptor SimpleString uses
+        SimpleStringCacheAllocator* adaptor = 0;
+        if (d.pi("via_adaptor", 0)) {
+            adaptor = new (::malloc(sizeof(SimpleStringCacheAllocator))) SimpleStringCacheAllocator(*cache, &rec);
+            if (strcmp(adaptor->alloc_name(), "ralloc") || strcmp(adaptor->free_name(), "rfree") || adaptor->actualAllocator() != &rec || adaptor->originalAllocator() != &rec)
+                r.fail("C18", "adaptor_identity", sg("what", "adaptor does not present the underlying allocator's names / actual allocator"), "");
+            fired("via_adaptor");
+        }
         Buf slots[N_SLOTS]; for (int i = 0; i < N_SLOTS; i++) slots[i].live = false;
         Vec<char*> pool[5];            // released cached buffers per size class (what the cache may hand out again)
         Vec<std::pair<char*, int> > everReleased;
@@ -107,7 +331,7 @@ struct Engine : public vf::Engine {
                 if (S.live) break;
                 size_t size = (size_t)o.c; int cls = classOf(size);
                 size_t servedBefore = rec.allocCalls;
-                char* p = cache->alloc(size);
+                char* p = adaptor ? adaptor->alloc_memory(size, "cachesim", oi) : cache->alloc(size);
                 if (!p) { r.fail("C18", "null_buffer", sfmt("op %zu: alloc(%zu) returned NULL", oi, size)); break; }
                 const Served* sv = rec.containing(p, size);
                 if (!sv) { r.fail("C18", "capacity", sg("what", "buffer not inside memory obtained from the allocator"), sfmt("op %zu: alloc(%zu)", oi, size)); break; }
@@ -140,7 +364,7 @@ struct Engine : public vf::Engine {
                     size = o.b == 1 ? hi : lo; fired("release_with_other_size_of_class");
                 }
                 // position in the used list: for the probes
-                cache->dealloc(S.p, size);
+                if (adaptor) adaptor->free_memory(S.p, size, "cachesim", oi); else cache->dealloc(S.p, size);
                 if (S.cls < 5) { pool[S.cls].push_back(S.p); everReleased.push_back(std::make_pair(S.p, S.cls)); }
                 else if (rec.containing(S.p, 1)) r.fail("C18", "returned_to_allocator", sg("what", "non-cached buffer not returned on release"), sfmt("op %zu: size %zu", oi, S.req));
                 S.live = false;
@@ -151,7 +375,7 @@ struct Engine : public vf::Engine {
                 if (o.a == 0) p = foreignBuf[oi % 8];
                 else { if (cls >= 5 || pool[cls].empty()) break; p = pool[cls][(size_t)o.b % pool[cls].size()]; p[0] = 's'; p[1] = 0; }   // second release of a buffer that sits in the free pool
                 size_t live0 = rec.liveCount();
-                cache->dealloc(p, size);
+                if (adaptor) adaptor->free_memory(p, size, "cachesim", oi); else cache->dealloc(p, size);
                 foreignReleases++; fired(o.a == 0 ? "foreign_release" : "double_release");
                 if (rec.liveCount() != live0 || rec.foreignFrees || rec.doubleFrees) r.fail("C18", "foreign_release", sg("what", "a release of unknown memory reached the allocator"), sfmt("op %zu", oi));
                 // nothing may have changed: every live buffer and every pooled buffer is still known (checked by later operations and at the end)
@@ -182,6 +406,7 @@ struct Engine : public vf::Engine {
             case C_RECREATE: {
                 cache->clearAllIncludingCurrentlyUsedMemory();
                 if (rec.liveCount() != 0) r.fail("C18", "clear_all", sg("what", "memory kept at destruction"), sfmt("op %zu: %zu allocations outstanding", oi, rec.liveCount()));
+                if (adaptor) adaptor->~SimpleStringCacheAllocator();
                 cache->~SimpleStringInternalCache();
                 size_t warn = 0, pos = 0; while ((pos = simIO().console.find("WARNING: Attempting to deallocate", pos)) != Str::npos) { warn++; pos += 10; }
                 size_t wantWarn = foreignReleases ? 1 : 0;
@@ -190,6 +415,7 @@ struct Engine : public vf::Engine {
                 for (int c = 0; c < 5; c++) pool[c].clear();
                 for (int i = 0; i < N_SLOTS; i++) slots[i].live = false;
                 new (cache) SimpleStringInternalCache(); cache->setAllocator(&rec);
+                if (adaptor) new (adaptor) SimpleStringCacheAllocator(*cache, &rec);
                 break;
             }
             default: break;
@@ -207,6 +433,7 @@ struct Engine : public vf::Engine {
         cache->clearAllIncludingCurrentlyUsedMemory();
         if (r.viols.empty() && rec.liveCount() != 0) r.fail("C18", "clear_all", sg("what", "memory kept at the end"), sfmt("%zu allocations outstanding after the final clear-all", rec.liveCount()));
         if (r.viols.empty() && (rec.doubleFrees || rec.foreignFrees)) r.fail("C18", "returned_once", sg("what", "memory returned twice at the end"), "");
+        if (adaptor) { adaptor->~SimpleStringCacheAllocator(); ::free(adaptor); }
         cache->~SimpleStringInternalCache();
         {
             size_t warn = 0, pos = 0; while ((pos = simIO().console.find("WARNING: Attempting to deallocate", pos)) != Str::npos) { warn++; pos += 10; }
@@ -222,4 +449,15 @@ struct Engine : public vf::Engine {
 };
 }  // namespace cs
 
+namespace cs {
+// function-local statics of the framework (null plugin, outside-test shell, ...) are created now, with the process's own allocator
+struct NoFunction : public ExecFunction { void exec() CPPUTEST_OVERRIDE { UtestShell::getCurrent()->print("warm", "f", 1); } };
+void Engine::initProcess() {
+    installBasicSeams();
+    SinkOutput out; TestResult res(out); TestRegistry reg; ExecFunctionTestShell shell; NoFunction fn; shell.testFunction_ = &fn;
+    reg.addTest(&shell); reg.runAllTests(res); shell.testFunction_ = 0;
+    UtestShell::getCurrent()->print("warm", "f", 1);
+    simIO().reset();
+}
+}
 int main(int argc, char** argv) { cs::Engine e; return vf::driverMain(argc, argv, e); }
